@@ -43,7 +43,7 @@ func genCase(t *rapid.T) qcase.Case {
 				g = cy.RankedGraph(t)
 			}
 		}
-		c = qcase.Case{Graph: g, Query: q.Text, Params: q.Params, Features: q.Features}
+		c = qcase.Case{Graph: g, Query: q.Text, Params: q.Params, Features: q.Features, EvaluateOptionalMatchPrefix: true}
 		model, err := xlate.Parse(c.Query)
 		if err == nil && rapid.IntRange(0, 2).Draw(t, "plant") != 0 {
 			// two cases in three: the graph is extended so that the query's patterns have a match (gen/plant)
@@ -91,6 +91,7 @@ func genOptionsFor(t *rapid.T) cy.Options {
 
 func oracle(c qcase.Case) (evid.Info, error) {
 	info := evid.Info{Classes: featureClasses(c)}
+	c.EvaluateOptionalMatchPrefix = true
 	model, err := xlate.Parse(c.Query)
 	if err != nil {
 		info.Skip = "parse-rejected"
